@@ -139,6 +139,7 @@ class Machine:
         self.sar = None
         self.steps = 0
         self.written, self.rbw = set(), set()      # registers written / read before being written since reset_tracking()
+        self.oob = []                              # accesses outside the state object and the own stack frame
 
     def const(self, v):
         return const_bits(v & ((1 << self.W) - 1), self.W)
@@ -177,10 +178,31 @@ class Machine:
             raise Unsupported("memory access through a non-pointer register %s" % base)
         return (b.region, b.off + off)
 
+    def _frame_check(self, a, what, sp_after=None):
+        """accesses must stay inside the 40-byte state and the function's own frame: not below the stack pointer
+        (an interrupt or signal may overwrite that at any time) and, for stores, not in the caller's frame"""
+        region, off = a
+        step = self.W // 8
+        if region == "state":
+            if off < 0 or off + step > 40:
+                self.oob.append("%s of %d byte(s) at offset %d of the state object" % (what, step, off))
+        elif region == "stack":
+            sp = self.regs.get(self.isa.canon(self.isa.SP))
+            low = sp_after if sp_after is not None else (sp.off if isinstance(sp, PtrVal) and sp.region == "stack" else None)
+            if low is not None and off < low:
+                self.oob.append("%s at %d byte(s) below the stack pointer" % (what, low - off))
+            elif off >= 0 and what == "store":
+                self.oob.append("store into the caller's frame (entry sp%+d)" % off)
+
     def load(self, a):
         if a not in self.mem:
             raise Unsupported("read of uninitialised memory %s%+d" % a)
+        self._frame_check(a, "load")
         return self.mem[a]
+
+    def store(self, a, v, sp_after=None):
+        self._frame_check(a, "store", sp_after)
+        self.mem[a] = v
 
     def add(self, a, c):
         """a + constant c for a pointer or a constant"""
@@ -259,7 +281,7 @@ class RiscV:
         if op == self.ld:
             mc.wr(a[0], mc.load(self._mem(mc, a[1])))
         elif op == self.st:
-            mc.mem[self._mem(mc, a[1])] = mc.rd(a[0])
+            mc.store(self._mem(mc, a[1]), mc.rd(a[0]))
         elif op in ("ld", "sd", "lw", "sw", "lb", "sb", "lh", "sh", "lbu", "lhu", "lwu"):
             raise Unsupported("access width of %s differs from the register width" % ins.text)
         elif op == "not":
@@ -376,7 +398,7 @@ class AArch64:
         elif op == "str":
             if self._is32(a[0]):
                 raise Unsupported("32-bit store %s" % ins.text)
-            mc.mem[self._mem(mc, a[1])] = mc.rd(a[0])
+            mc.store(self._mem(mc, a[1]), mc.rd(a[0]))
         elif op in ("ldp", "stp"):
             if self._is32(a[0]) or len(a) != 3:
                 raise Unsupported("pair access %s" % ins.text)
@@ -385,7 +407,7 @@ class AArch64:
                 if op == "ldp":
                     mc.wr(a[k], mc.load((reg, off + 8 * k)))
                 else:
-                    mc.mem[(reg, off + 8 * k)] = mc.rd(a[k])
+                    mc.store((reg, off + 8 * k), mc.rd(a[k]))
         elif op == "mvn":
             self.wrx(mc, a[0], w_not(self._op2(mc, a[1:], ins.text)))
         elif op == "mov":
@@ -505,7 +527,7 @@ class Arm32:
             sp = mc.rd("sp")
             base = sp.off - 4 * len(regs)
             for k, r in enumerate(regs):
-                mc.mem[(sp.region, base + 4 * k)] = mc.rd(r)
+                mc.store((sp.region, base + 4 * k), mc.rd(r), sp_after=base)
             mc.wr("sp", PtrVal(sp.region, base))
         elif op == "pop":
             regs = self._reglist(",".join(a))
@@ -543,7 +565,7 @@ class Arm32:
             m = self._mem(mc, a[1])
             if m[0] == "regoff":
                 raise Unsupported("register-offset store %s" % ins.text)
-            mc.mem[m] = mc.rd(a[0])
+            mc.store(m, mc.rd(a[0]))
         elif op == "adr":
             mc.wr(a[0], CodePtr(a[1]))
         elif op in ("eor", "eors", "and", "ands", "orr", "orrs", "bic", "bics"):
@@ -653,7 +675,7 @@ class Xtensa:
         if op == "l32i":
             mc.wr(a[0], mc.load(mc.addr(a[1], _imm(a[2]))))
         elif op == "s32i":
-            mc.mem[mc.addr(a[1], _imm(a[2]))] = mc.rd(a[0])
+            mc.store(mc.addr(a[1], _imm(a[2])), mc.rd(a[0]))
         elif op in ("xor", "and", "or"):
             f = {"xor": w_xor, "and": w_and, "or": w_or}[op]
             mc.wr(a[0], f(mc.bits(mc.rd(a[1]), ins.text), mc.bits(mc.rd(a[2]), ins.text)))
@@ -748,7 +770,7 @@ class M68k:
         if ea[0] == "reg":
             mc.wr(ea[1], v)
         elif ea[0] == "mem":
-            mc.mem[ea[1]] = v
+            mc.store(ea[1], v)
         else:
             raise Unsupported("store to an immediate")
 
@@ -800,7 +822,7 @@ class M68k:
             return ("jump", a[0])
         elif op == "link.w" or op == "link":
             sp = mc.rd("sp")
-            mc.mem[(sp.region, sp.off - 4)] = mc.rd(a[0])
+            mc.store((sp.region, sp.off - 4), mc.rd(a[0]), sp_after=sp.off - 4)
             mc.wr(a[0], PtrVal(sp.region, sp.off - 4))
             mc.wr("sp", PtrVal(sp.region, sp.off - 4 + _signed(_imm(a[1]), 16)))
         elif op == "unlk":
@@ -901,8 +923,11 @@ def rule_rounds(rep, rid, name):
     def dep(v):
         return isinstance(v, tuple) and any(a in atoms for bit in v for mono in bit for a in mono)
 
+    allm = []
+
     def entry(cells, first_round):
         mc = Machine(fn, isa)
+        allm.append(mc)
         mc.regs = dict(saved0)
         mc.regs[isa.canon(isa.SP)] = PtrVal("stack", 0)
         if hasattr(isa, "setup"):
@@ -941,6 +966,7 @@ def rule_rounds(rep, rid, name):
             their value from the function entry; with junk=True everything else (scratch registers, dead copies,
             stale state cells) holds an unrelated symbol"""
             mc = Machine(fn, isa)
+            allm.append(mc)
             if junk:
                 for r in isa.SCRATCH + ([isa.ROUND] if isa.ROUND else []):
                     mc.regs[isa.canon(r)] = affine_sym("junk_" + r, W)
@@ -1081,3 +1107,9 @@ def rule_rounds(rep, rid, name):
                               "%s ascon_permute: round block %d relies on the constant the prologue leaves in %s, but round block %d "
                               "does not preserve it" % (isa.name, q, c, r))
                 break
+    oob = sorted(set(x for mc in allm for x in mc.oob))
+    if oob:
+        rep.violation(rid, "%s:footprint" % name, path, "%s ascon_permute touches memory outside the 40-byte state and its own stack "
+                      "frame: %s" % (isa.name, "; ".join(oob[:4])))
+    else:
+        rep.instance(rid, 1, {"backend": name, "footprint": "state bytes 0..39 and the own frame at or above the stack pointer only"})
